@@ -170,9 +170,22 @@ func drawShareProgram(prog *simrt.Stream, b Bounds) *shareProgram {
 	// that decides whether it exists (0 = stop). Frame ranges are handed out
 	// consecutively: a writer owns its segment; in mixed runs a reader is
 	// confined to a segment no writer owns (its own, or an earlier read-only one).
+	rMask, wMask := drawMask(prog, numReaderOps), drawMask(prog, numWriterOps)
 	contT := []int{2, 3, 6, 16}[prog.Draw(4)]
 	contO := []int{2, 4, 12}[prog.Draw(3)]
 	maxTasks, maxOps := 16, 12
+	if !huge && !medium && prog.Draw(6) == 5 {
+		// "deep" runs: two to four tasks with long operation sequences of few
+		// kinds - state that one operation leaves behind for a later one of
+		// the same task (marks, memos, scratch) after another task interfered
+		contT, contO, maxTasks, maxOps = 2, 24, 4, 48
+		if rMask == 1<<numReaderOps-1 {
+			rMask = drawMask(prog, numReaderOps)
+		}
+		if wMask == 1<<numWriterOps-1 {
+			wMask = drawMask(prog, numWriterOps)
+		}
+	}
 	if huge {
 		contT, contO, maxTasks, maxOps = 2, 2, 4, 3
 	}
@@ -238,12 +251,12 @@ func drawShareProgram(prog *simrt.Stream, b Bounds) *shareProgram {
 			}
 			op := shareOp{}
 			if t.role == roleReader {
-				op.kind = prog.Draw(numReaderOps)
+				op.kind = maskedKind(prog.Draw(numReaderOps), numReaderOps, rMask)
 				if (huge || medium) && prog.Draw(2) == 1 {
 					op.kind = []int{rRead, rReadOther, rConv, rStriped}[prog.Draw(4)] // whole-buffer operations
 				}
 			} else {
-				op.kind = prog.Draw(numWriterOps)
+				op.kind = maskedKind(prog.Draw(numWriterOps), numWriterOps, wMask)
 				if (huge || medium) && prog.Draw(2) == 1 {
 					op.kind = []int{wWrite, wWriteOther, wConv, wStriped}[prog.Draw(4)]
 				}
